@@ -1273,7 +1273,14 @@ def render_fixed(prog: Program, layout: Layout) -> Rendered:
             # labelled DO for unnamed DO constructs
             if s.kind == "open-construct" and toks and toks[0] == "do " and layout.split_every != 1:
                 nxt = stmts[si + 1] if si + 1 < len(stmts) else None
-                if do_stack and do_stack[-1][2] == si - 1 and layout.join_every:
+                # a terminal label can be shared only if the two loops also end together: the END DO of this loop is
+                # directly followed by the END DO of the enclosing one
+                ends_with_outer = False
+                if do_stack and do_stack[-1][2] == si - 1:
+                    ci = next((j for j in range(si + 1, len(stmts)) if stmts[j].kind == "close-construct" and stmts[j].closes == s.opens), None)
+                    ends_with_outer = (ci is not None and ci + 1 < len(stmts) and stmts[ci + 1].kind == "close-construct"
+                                       and stmts[ci + 1].closes == do_stack[-1][0])
+                if ends_with_outer and layout.join_every:
                     lab = do_stack[-1][1]  # shared terminal label with the directly enclosing loop
                     shared = True
                 else:
